@@ -1,7 +1,7 @@
 #!/usr/bin/env python3
 """regenerate coq/_CoqProject from the files present (lib, gen, model, proofs, props); rewrite only on change"""
 import glob, os
-COQ = os.path.join(os.path.dirname(os.path.dirname(os.path.abspath(__file__))), "coq")
+COQ = os.environ.get("VERIF_COQ") or os.path.join(os.path.dirname(os.path.dirname(os.path.abspath(__file__))), "coq")
 def main():
     files = []
     for d in ("lib", "gen", "model", "proofs", "props"):
